@@ -877,7 +877,19 @@ func (s *Service) runPipeline(ctx context.Context, rp *runnablePipeline) error {
 				return nil
 			}
 			if err != nil {
-				return cerrors.Errorf("node %s stopped with error: %w", node.ID(), err)
+				err = cerrors.Errorf("node %s stopped with error: %w", node.ID(), err)
+				// Record the error in the tomb before nodesWg.Done() runs (it is
+				// deferred above). The cleanup goroutine reads rp.t.Err() as
+				// soon as the last node is done, and the tomb itself records
+				// the returned error only after this function, including its
+				// deferred calls, has returned. When the failing node is the
+				// last one to stop (e.g. a destination or DLQ failure while a
+				// graceful stop drains) the cleanup could otherwise see a tomb
+				// that is still alive and report a failed run as stopped
+				// gracefully. The tomb keeps the first reason, returning the
+				// same error below changes nothing.
+				rp.t.Kill(err)
+				return err
 			}
 			return nil
 		})
